@@ -27,11 +27,21 @@ def main():
         mod.run(ck)
     except SystemExit:
         raise
-    except BaseException as e:  # the check itself failed: never report 0
+    except (OSError, MemoryError, KeyboardInterrupt, ImportError) as e:  # infrastructure: the check could not run
         import traceback
 
         traceback.print_exc()
         common.die(f"{a.prop}: harness error {type(e).__name__}: {e}")
+    except BaseException as e:
+        # The harness itself tripped over the tree under test (an observation, oracle or request
+        # builder met behaviour it has no case for).  On the unchanged tree this never happens
+        # (vp check); on a changed tree it means the tie between model and code can no longer be
+        # evaluated, which is reported like any other broken correspondence — never as a pass.
+        import traceback
+
+        tb = traceback.format_exc()
+        print(tb, flush=True)
+        ck.broken.append({"what": f"corr {a.prop}:harness-exception {type(e).__name__}", "detail": tb[-3000:]})
     ck.finish()
 
 
